@@ -177,7 +177,7 @@ check("C13", "a replica applies the primary's log in order, exactly once", [
 
 check("C14", "a connected replica converges (reduced form: data path under an ideal link)", [
     ob("VerifC14_DataPathConverges", "pkg/replication", "primary program (puts, deletes, a 2-entry batch, a flush) with a replica session joining before/between/after; real initial-send, push, poll and resend paths into a recording stream; messages fed in order to a real Replica applying through EngineApplier into a second engine with acks; link drained; probe key reads equal on both sides",
-       "<=2 primary steps, join point 0..n, <=3 poll rounds, 2 keys", "<=3 primary steps", q={"budget_s": 300}, t={"budget_s": 900}),
+       "<=2 primary steps, join point 0..n, <=3 poll rounds, 2 keys, replica MaxBatchSize default or 16 bytes", "<=3 primary steps, join point 0..n, <=3 poll rounds, 2 keys, replica MaxBatchSize default or 16 bytes", q={"budget_s": 300}, t={"budget_s": 900}),
 ], [SIMFS, CLOCK, HASH, BLOOM, JSON, RAND, LOG, TIERA, "the link is ideal: every message the primary sends is delivered in order, retransmission requests are served at once"],
    ["the 'within bounded time' clause", "the replica's timer-driven state machine, reconnect and restart timing", "TCP/gRPC behaviour", "codec internals"])
 
